@@ -48,6 +48,16 @@ Theorem C16_run_schedule_sound :
 Proof. exact @run_schedule_sound. Qed.
 Print Assumptions C16_run_schedule_sound.
 
+(* an integrand that raises: K j i = None.  The threaded assembler (workers record the exception, the first one is
+   raised again after all workers are joined - re-read from the source as gen_errors_reraised_after_join) raises
+   exactly when the serial double loop does, for every thread count *)
+Theorem C16_exceptions_propagate :
+  gen_errors_reraised_after_join = true /\
+  forall (V : Type) (K : nat -> nat -> option V) (k Nu Nv : nat), 0 < k ->
+    existsb (existsb (pair_raises K)) (gen_split k (gen_pairs Nu Nv)) = existsb (pair_raises K) (gen_pairs Nu Nv).
+Proof. split; [exact gen_errors_reraised | exact (@threaded_raises_iff_serial)]. Qed.
+Print Assumptions C16_exceptions_propagate.
+
 (* non-vacuity: a concrete rectangular instance with more threads than some chunks need; 3 workers, 6 pairs *)
 Example C16_instance :
   run_schedule [2; 0; 1; 0; 2; 1] (gen_split 3 (gen_pairs 2 3))
